@@ -28,7 +28,7 @@ UNITS = {
                  "fn_props": {**PRELUDE_FNS, "it_call|it_ret": ["C08", "C14"], "it_jumps_loops": ["C08", "C14"],
                               "it_int": ["C14", "C18"], "it_byte_label|it_word_label": ["C04", "C12", "C14"], "get_type": ["C08", "C14"]}},
     "assembler": {"tpl": "assembler.rs", "props": ["C08", "C12", "C14", "C16", "C18"],
-                  "fn_props": {**PRELUDE_FNS, "em_\\d+": ["C08", "C16"], "as_proc_def|as_call|as_jmps_loops": ["C08", "C14"],
+                  "fn_props": {**PRELUDE_FNS, "em_\\d+": ["C08", "C16"], "as_proc_def|as_call|as_jmps_loops|as_label": ["C08", "C14"],
                                "as_procedure": ["C08", "C16"], "as_int": ["C14", "C18"], "as_offset": ["C12", "C14"],
                                "as_byte_label|as_word_label|as_unsupported|as_offset_as_byte": ["C14"], "as_d[bw]_.*|as_set|advance_data_counter": ["C12", "C14"], "add_entry": ["C16"], "new|get_type": ["C08", "C14"]}},
     "driver": {"tpl": "driver.rs", "props": ["C07", "C08", "C12", "C14", "C17", "C18", "C19", "C20"],
@@ -372,6 +372,7 @@ def run_unit(unit: str, dst: str, root: str):
         failed_clause_lines = set()
         failed_tag_lines = set()
         other = False
+        inv_failed = False
         clause_lines = set()
         for (l0, l1, _t) in sp["clauses"]:
             clause_lines.update(range(l0, l1 + 1))
@@ -390,6 +391,8 @@ def run_unit(unit: str, dst: str, root: str):
                 failed_tag_lines.add(e["lines"][0])
             elif "decreases not satisfied" in e["head"] and any(t["decreases"] for t in mytags.values()):
                 failed_tag_lines.update(ln for ln, t in mytags.items() if t["decreases"])
+            elif "invariant not satisfied" in e["head"]:
+                inv_failed = True
             else:
                 other = True
         for k, (l0, l1, txt) in enumerate(sp["clauses"]):
@@ -403,6 +406,9 @@ def run_unit(unit: str, dst: str, root: str):
         for ln, tg in sorted(mytags.items()):
             st = ("undecided" if timeout else "refuted") if ln in failed_tag_lines else "discharged"
             f["tagged"].append({"name": tg["name"], "props": tg["props"], "status": st, "text": re.sub(r"\s+", " ", lines_all[ln - 1].split("//#")[0].strip())[:300]})
+        # untagged loop invariants state what the loop computes (the function's own property), not totality
+        f["invariants"] = ("undecided" if timeout else "refuted") if inv_failed else "discharged"
+        f["has_loops"] = bool(re.search(r"^\s*invariant\b", "\n".join(text.split("\n")[sp["start"]:sp["end"]]), re.M))
         if other:
             f["total"] = "undecided" if timeout else "refuted"
         if failed_clause_lines and not any(c["status"] != "discharged" for c in f["clauses"]):
@@ -445,14 +451,19 @@ def run_for_property(pid, tier, seed, dst, root, rep, findings):
         for f in r["fns"]:
             fprops = fn_props(unit, f["name"])
             allc = []
+            # C09 (totality, addresses inside 1 MB) is carried by `total` and by the address helpers' postconditions; the
+            # postconditions of the other functions state what they compute, and a change there is not a C09 matter
+            functional = fprops if re.fullmatch("make_valid_address|calculate_from_offset", f["name"]) else ([q for q in fprops if q != "C09"] or fprops)
             for c in f["clauses"]:
-                if pid in (c.get("props") or fprops):
+                if pid in (c.get("props") or functional):
                     allc.append((c.get("name") or f"ensures#{c['k']}", c["status"], c["text"]))
             for tg in f.get("tagged", []):
                 if pid in tg["props"]:
                     allc.append((tg["name"], tg["status"], tg["text"]))
             if pid in fprops:
-                allc.append(("total", f["total"], "no overflow / index in bounds / callee preconditions / untagged loop invariants / termination"))
+                allc.append(("total", f["total"], "no overflow / index in bounds / callee preconditions / termination"))
+            if f.get("has_loops") and pid in ([q for q in fprops if q != "C09"] or fprops):
+                allc.append(("loop-invariants", f.get("invariants", "discharged"), "untagged loop invariants (what the loop has computed so far)"))
             if not allc:
                 continue
             ntotal += 1
